@@ -6,7 +6,7 @@ CONSTANTS
   Packages = {}
   K = 3
   Fmts = {}
-  Wide = FALSE
+  Wide = "some"
   HPackages <- HPkgs
   Calls <- HCalls
   MaxLen = 3
